@@ -294,7 +294,22 @@ impl<'t> Gen<'t> {
             2 => ops.push(Op::SayVar(self.sayable(s))),
             3 => ops.push(Op::Listen(None)),
             4 => {
-                let c = match self.t.draw(8) {
+                let c = match self.t.draw(9) {
+                    8 => {
+                        let (a, b) = *self.t.pick(&[
+                            ("-0", "-0"),
+                            ("-0.0", "-0"),
+                            ("36028797018963968", "36028797018963970"),
+                            ("123456789012345678", "123456789012345680"),
+                            ("9007199254740993", "9007199254740992"),
+                            ("1000000000000000000000", "1000000000000000000000"),
+                            ("0.30000000000000004", "0.30000000000000004"),
+                            ("1.0", "1"),
+                            ("007", "7"),
+                            ("2.50", "2.5"),
+                        ]);
+                        Const::Spelled(a, b)
+                    }
                     7 => Const::Canonical(*self.t.pick(&[
                         "0.125", "1000000", "123456789", "0.001", "-0.75", "3.14159", "0", "65536",
                     ])),
